@@ -15,11 +15,11 @@ import (
 )
 
 type walker struct {
-	sb    strings.Builder
-	seen  map[uintptr]bool
-	lines bool
-	path  []string
-	out   []string
+	sb       strings.Builder
+	seen     map[uintptr]bool
+	lines    bool
+	path     []string
+	out      []string
 	skipBase bool
 }
 
@@ -249,13 +249,13 @@ func trunc(s string) string {
 
 // PacketSig is the comparable form of a decoded packet.
 type PacketSig struct {
-	Types     []string
-	Layers    []string // signature of each layer (fields, contents, payload)
-	Link, Net, Transport, App, Err int // indices into Layers (-1 = nil)
-	Truncated bool
-	Meta      string
-	Data      string
-	String    string
+	Types                          []string
+	Layers                         []string // signature of each layer (fields, contents, payload)
+	Link, Net, Transport, App, Err int      // indices into Layers (-1 = nil)
+	Truncated                      bool
+	Meta                           string
+	Data                           string
+	String                         string
 }
 
 // Packet computes the signature of p. It calls p.Layers() (forcing a lazy packet to decode fully).
